@@ -93,7 +93,8 @@ Inductive gev :=
 | GRemoved (h : handler) (w : watch)     (* registry mutation: (h,w) removed *)
 | GRemovedW (w : watch)                  (* ... every handler of w removed *)
 | GRemovedAll                            (* ... every handler removed *)
-| GSnap (w : watch) (hs : list handler). (* the dispatcher copied the handler set of w *)
+| GSnap (w : watch) (hs : list handler)  (* the dispatcher copied the handler set of w *)
+| GMarkerRead (t : tid) (skip : bool).   (* stop(): the unlocked read of _last_item; skip = the marker is not put *)
 
 Inductive epc := ENew | ECheckPc | EPutPc | EExiting | EExited.
 
@@ -113,32 +114,34 @@ Record state := {
   dcont : list instr;
   aconts : list (N * list instr);
   glog : list gev;
-  fixed : bool     (* true: start() holds the observer lock and refuses a second start (repair F12) *)
+  fixed : bool;    (* true: start() holds the observer lock and refuses a second start (repair F16) *)
+  qlast : option qitem   (* SkipRepeatsQueue._last_item: the last item put, None once that very object was got *)
 }.
 
 Definition init_of (fx : bool) : state :=
   {| handlers := []; watches := []; emitters := []; efw := []; ems := []; queue := []; lock := None;
      dstarted := false; dstop := false; dexited := false; dcur := None; dtodo := []; dcont := [];
-     aconts := []; glog := []; fixed := fx |}.
+     aconts := []; glog := []; fixed := fx; qlast := None |}.
 (* THE model: start() holds the observer lock (repair F16).  init_of false = the pinned start(). *)
 Definition init : state := init_of true.
 
 (* ---- field updates *)
-Definition set_handlers v s := {| handlers := v; watches := watches s; emitters := emitters s; efw := efw s; ems := ems s; queue := queue s; lock := lock s; dstarted := dstarted s; dstop := dstop s; dexited := dexited s; dcur := dcur s; dtodo := dtodo s; dcont := dcont s; aconts := aconts s; glog := glog s; fixed := fixed s |}.
-Definition set_watches v s := {| handlers := handlers s; watches := v; emitters := emitters s; efw := efw s; ems := ems s; queue := queue s; lock := lock s; dstarted := dstarted s; dstop := dstop s; dexited := dexited s; dcur := dcur s; dtodo := dtodo s; dcont := dcont s; aconts := aconts s; glog := glog s; fixed := fixed s |}.
-Definition set_emitters v s := {| handlers := handlers s; watches := watches s; emitters := v; efw := efw s; ems := ems s; queue := queue s; lock := lock s; dstarted := dstarted s; dstop := dstop s; dexited := dexited s; dcur := dcur s; dtodo := dtodo s; dcont := dcont s; aconts := aconts s; glog := glog s; fixed := fixed s |}.
-Definition set_efw v s := {| handlers := handlers s; watches := watches s; emitters := emitters s; efw := v; ems := ems s; queue := queue s; lock := lock s; dstarted := dstarted s; dstop := dstop s; dexited := dexited s; dcur := dcur s; dtodo := dtodo s; dcont := dcont s; aconts := aconts s; glog := glog s; fixed := fixed s |}.
-Definition set_ems v s := {| handlers := handlers s; watches := watches s; emitters := emitters s; efw := efw s; ems := v; queue := queue s; lock := lock s; dstarted := dstarted s; dstop := dstop s; dexited := dexited s; dcur := dcur s; dtodo := dtodo s; dcont := dcont s; aconts := aconts s; glog := glog s; fixed := fixed s |}.
-Definition set_queue v s := {| handlers := handlers s; watches := watches s; emitters := emitters s; efw := efw s; ems := ems s; queue := v; lock := lock s; dstarted := dstarted s; dstop := dstop s; dexited := dexited s; dcur := dcur s; dtodo := dtodo s; dcont := dcont s; aconts := aconts s; glog := glog s; fixed := fixed s |}.
-Definition set_lock v s := {| handlers := handlers s; watches := watches s; emitters := emitters s; efw := efw s; ems := ems s; queue := queue s; lock := v; dstarted := dstarted s; dstop := dstop s; dexited := dexited s; dcur := dcur s; dtodo := dtodo s; dcont := dcont s; aconts := aconts s; glog := glog s; fixed := fixed s |}.
-Definition set_dstarted v s := {| handlers := handlers s; watches := watches s; emitters := emitters s; efw := efw s; ems := ems s; queue := queue s; lock := lock s; dstarted := v; dstop := dstop s; dexited := dexited s; dcur := dcur s; dtodo := dtodo s; dcont := dcont s; aconts := aconts s; glog := glog s; fixed := fixed s |}.
-Definition set_dstop v s := {| handlers := handlers s; watches := watches s; emitters := emitters s; efw := efw s; ems := ems s; queue := queue s; lock := lock s; dstarted := dstarted s; dstop := v; dexited := dexited s; dcur := dcur s; dtodo := dtodo s; dcont := dcont s; aconts := aconts s; glog := glog s; fixed := fixed s |}.
-Definition set_dexited v s := {| handlers := handlers s; watches := watches s; emitters := emitters s; efw := efw s; ems := ems s; queue := queue s; lock := lock s; dstarted := dstarted s; dstop := dstop s; dexited := v; dcur := dcur s; dtodo := dtodo s; dcont := dcont s; aconts := aconts s; glog := glog s; fixed := fixed s |}.
-Definition set_dcur v s := {| handlers := handlers s; watches := watches s; emitters := emitters s; efw := efw s; ems := ems s; queue := queue s; lock := lock s; dstarted := dstarted s; dstop := dstop s; dexited := dexited s; dcur := v; dtodo := dtodo s; dcont := dcont s; aconts := aconts s; glog := glog s; fixed := fixed s |}.
-Definition set_dtodo v s := {| handlers := handlers s; watches := watches s; emitters := emitters s; efw := efw s; ems := ems s; queue := queue s; lock := lock s; dstarted := dstarted s; dstop := dstop s; dexited := dexited s; dcur := dcur s; dtodo := v; dcont := dcont s; aconts := aconts s; glog := glog s; fixed := fixed s |}.
-Definition set_dcont v s := {| handlers := handlers s; watches := watches s; emitters := emitters s; efw := efw s; ems := ems s; queue := queue s; lock := lock s; dstarted := dstarted s; dstop := dstop s; dexited := dexited s; dcur := dcur s; dtodo := dtodo s; dcont := v; aconts := aconts s; glog := glog s; fixed := fixed s |}.
-Definition set_aconts v s := {| handlers := handlers s; watches := watches s; emitters := emitters s; efw := efw s; ems := ems s; queue := queue s; lock := lock s; dstarted := dstarted s; dstop := dstop s; dexited := dexited s; dcur := dcur s; dtodo := dtodo s; dcont := dcont s; aconts := v; glog := glog s; fixed := fixed s |}.
-Definition set_glog v s := {| handlers := handlers s; watches := watches s; emitters := emitters s; efw := efw s; ems := ems s; queue := queue s; lock := lock s; dstarted := dstarted s; dstop := dstop s; dexited := dexited s; dcur := dcur s; dtodo := dtodo s; dcont := dcont s; aconts := aconts s; glog := v; fixed := fixed s |}.
+Definition set_handlers v s := {| handlers := v; watches := watches s; emitters := emitters s; efw := efw s; ems := ems s; queue := queue s; lock := lock s; dstarted := dstarted s; dstop := dstop s; dexited := dexited s; dcur := dcur s; dtodo := dtodo s; dcont := dcont s; aconts := aconts s; glog := glog s; fixed := fixed s; qlast := qlast s |}.
+Definition set_watches v s := {| handlers := handlers s; watches := v; emitters := emitters s; efw := efw s; ems := ems s; queue := queue s; lock := lock s; dstarted := dstarted s; dstop := dstop s; dexited := dexited s; dcur := dcur s; dtodo := dtodo s; dcont := dcont s; aconts := aconts s; glog := glog s; fixed := fixed s; qlast := qlast s |}.
+Definition set_emitters v s := {| handlers := handlers s; watches := watches s; emitters := v; efw := efw s; ems := ems s; queue := queue s; lock := lock s; dstarted := dstarted s; dstop := dstop s; dexited := dexited s; dcur := dcur s; dtodo := dtodo s; dcont := dcont s; aconts := aconts s; glog := glog s; fixed := fixed s; qlast := qlast s |}.
+Definition set_efw v s := {| handlers := handlers s; watches := watches s; emitters := emitters s; efw := v; ems := ems s; queue := queue s; lock := lock s; dstarted := dstarted s; dstop := dstop s; dexited := dexited s; dcur := dcur s; dtodo := dtodo s; dcont := dcont s; aconts := aconts s; glog := glog s; fixed := fixed s; qlast := qlast s |}.
+Definition set_ems v s := {| handlers := handlers s; watches := watches s; emitters := emitters s; efw := efw s; ems := v; queue := queue s; lock := lock s; dstarted := dstarted s; dstop := dstop s; dexited := dexited s; dcur := dcur s; dtodo := dtodo s; dcont := dcont s; aconts := aconts s; glog := glog s; fixed := fixed s; qlast := qlast s |}.
+Definition set_queue v s := {| handlers := handlers s; watches := watches s; emitters := emitters s; efw := efw s; ems := ems s; queue := v; lock := lock s; dstarted := dstarted s; dstop := dstop s; dexited := dexited s; dcur := dcur s; dtodo := dtodo s; dcont := dcont s; aconts := aconts s; glog := glog s; fixed := fixed s; qlast := qlast s |}.
+Definition set_lock v s := {| handlers := handlers s; watches := watches s; emitters := emitters s; efw := efw s; ems := ems s; queue := queue s; lock := v; dstarted := dstarted s; dstop := dstop s; dexited := dexited s; dcur := dcur s; dtodo := dtodo s; dcont := dcont s; aconts := aconts s; glog := glog s; fixed := fixed s; qlast := qlast s |}.
+Definition set_dstarted v s := {| handlers := handlers s; watches := watches s; emitters := emitters s; efw := efw s; ems := ems s; queue := queue s; lock := lock s; dstarted := v; dstop := dstop s; dexited := dexited s; dcur := dcur s; dtodo := dtodo s; dcont := dcont s; aconts := aconts s; glog := glog s; fixed := fixed s; qlast := qlast s |}.
+Definition set_dstop v s := {| handlers := handlers s; watches := watches s; emitters := emitters s; efw := efw s; ems := ems s; queue := queue s; lock := lock s; dstarted := dstarted s; dstop := v; dexited := dexited s; dcur := dcur s; dtodo := dtodo s; dcont := dcont s; aconts := aconts s; glog := glog s; fixed := fixed s; qlast := qlast s |}.
+Definition set_dexited v s := {| handlers := handlers s; watches := watches s; emitters := emitters s; efw := efw s; ems := ems s; queue := queue s; lock := lock s; dstarted := dstarted s; dstop := dstop s; dexited := v; dcur := dcur s; dtodo := dtodo s; dcont := dcont s; aconts := aconts s; glog := glog s; fixed := fixed s; qlast := qlast s |}.
+Definition set_dcur v s := {| handlers := handlers s; watches := watches s; emitters := emitters s; efw := efw s; ems := ems s; queue := queue s; lock := lock s; dstarted := dstarted s; dstop := dstop s; dexited := dexited s; dcur := v; dtodo := dtodo s; dcont := dcont s; aconts := aconts s; glog := glog s; fixed := fixed s; qlast := qlast s |}.
+Definition set_dtodo v s := {| handlers := handlers s; watches := watches s; emitters := emitters s; efw := efw s; ems := ems s; queue := queue s; lock := lock s; dstarted := dstarted s; dstop := dstop s; dexited := dexited s; dcur := dcur s; dtodo := v; dcont := dcont s; aconts := aconts s; glog := glog s; fixed := fixed s; qlast := qlast s |}.
+Definition set_dcont v s := {| handlers := handlers s; watches := watches s; emitters := emitters s; efw := efw s; ems := ems s; queue := queue s; lock := lock s; dstarted := dstarted s; dstop := dstop s; dexited := dexited s; dcur := dcur s; dtodo := dtodo s; dcont := v; aconts := aconts s; glog := glog s; fixed := fixed s; qlast := qlast s |}.
+Definition set_aconts v s := {| handlers := handlers s; watches := watches s; emitters := emitters s; efw := efw s; ems := ems s; queue := queue s; lock := lock s; dstarted := dstarted s; dstop := dstop s; dexited := dexited s; dcur := dcur s; dtodo := dtodo s; dcont := dcont s; aconts := v; glog := glog s; fixed := fixed s; qlast := qlast s |}.
+Definition set_glog v s := {| handlers := handlers s; watches := watches s; emitters := emitters s; efw := efw s; ems := ems s; queue := queue s; lock := lock s; dstarted := dstarted s; dstop := dstop s; dexited := dexited s; dcur := dcur s; dtodo := dtodo s; dcont := dcont s; aconts := aconts s; glog := v; fixed := fixed s; qlast := qlast s |}.
+Definition set_qlast v s := {| handlers := handlers s; watches := watches s; emitters := emitters s; efw := efw s; ems := ems s; queue := queue s; lock := lock s; dstarted := dstarted s; dstop := dstop s; dexited := dexited s; dcur := dcur s; dtodo := dtodo s; dcont := dcont s; aconts := aconts s; glog := glog s; fixed := fixed s; qlast := v |}.
 
 Definition say (g : gev) (s : state) : state := set_glog (g :: glog s) s.
 
@@ -206,6 +209,20 @@ Fixpoint unwind (k : list instr) : list instr :=
 
 Definition last_is (q : list qitem) (x : qitem) : bool :=
   match rev q with y :: _ => qitem_eqb x y | [] => false end.
+
+(* _last_item compared with an item about to be put (SkipRepeatsQueue.put, before the queue mutex is taken) *)
+Definition qlast_is (s : state) (x : qitem) : bool :=
+  match qlast s with Some y => qitem_eqb x y | None => false end.
+
+(* SkipRepeatsQueue._get: `if item is self._last_item: self._last_item = None` - an identity test.  Event
+   items are fresh tuples, so the test succeeds only for the last item of the queue (the queue is empty
+   afterwards); the stop marker is one shared object, so getting ANY queued marker resets _last_item when the
+   last item put was a marker (even if another marker is still queued). *)
+Definition qlast_after_get (x : qitem) (q' : list qitem) (l : option qitem) : option qitem :=
+  match x with
+  | QStop => match l with Some QStop => None | _ => l end
+  | QEv _ _ => match q' with [] => None | _ => l end
+  end.
 
 (* environment input of a step *)
 Inductive input := NoIn | InOrd (order : list emid) | InTurn (h : handler) (calls : list call).
@@ -328,8 +345,10 @@ Definition exec (s : state) (t : tid) (i : instr) (k : list instr) (inp : input)
       if dstarted s then raise (say (GDStart t true) s)
       else go (IYield :: k) (say (GDStart t false) (set_dcont [DCheck] (set_dstarted true s)))
   | ISetStop => go k (say (GDSetFlag t) (set_dstop true s))
-  | IMarker => if last_is (queue s) QStop then go k s else go (IMarkerPut :: k) s
-  | IMarkerPut => go k (say (GPutM t) (set_queue (queue s ++ [QStop]) s))
+  | IMarker =>
+      if qlast_is s QStop then go k (say (GMarkerRead t true) s)
+      else go (IMarkerPut :: k) (say (GMarkerRead t false) s)
+  | IMarkerPut => go k (say (GPutM t) (set_qlast (Some QStop) (set_queue (queue s ++ [QStop]) s)))
   | IJoinDisp =>
       if negb (dstarted s) then raise s
       else if tid_eqb t TD then raise s
@@ -342,9 +361,10 @@ Definition exec (s : state) (t : tid) (i : instr) (k : list instr) (inp : input)
   | DGet =>
       match queue s with
       | [] => None
-      | QStop :: q => go [DCheck] (say (GGet QStop) (set_queue q s))
+      | QStop :: q => go [DCheck] (say (GGet QStop) (set_qlast (qlast_after_get QStop q (qlast s)) (set_queue q s)))
       | QEv e w :: q =>
-          go [IAcq; DSnap; DTurns; IRel; DTaskDone; DCheck] (say (GGet (QEv e w)) (set_dcur (Some (e, w)) (set_queue q s)))
+          go [IAcq; DSnap; DTurns; IRel; DTaskDone; DCheck]
+             (say (GGet (QEv e w)) (set_dcur (Some (e, w)) (set_qlast (qlast_after_get (QEv e w) q (qlast s)) (set_queue q s))))
       end
   | DSnap =>
       match dcur s with
@@ -370,11 +390,32 @@ Definition exec (s : state) (t : tid) (i : instr) (k : list instr) (inp : input)
   | DTaskDone => go k (say GTaskDone (set_dcur None s))
   end.
 
-(* instructions that are not preceded by a blocking point and leave no observation of their own *)
+(* Silent instructions: executed by [closure] in the same model step as the instruction before them.
+   Merging an access A into the preceding step P of the same thread is sound when no step X of another thread
+   that could fall between P and A can tell the difference, i.e. when X commutes with P or with A:
+   - after IAcq (P takes the observer lock, A anything): every X between P and A is a step of a thread that
+     does not hold and cannot take the lock, so X is not a lock operation and commutes with P (an acquire is a
+     right-mover): P;X;A = X;P;A.  This covers ISched (reads efw under the lock and `is_alive()` of the
+     dispatcher - the unlocked read of the alive bits is moved back to the acquire), IUnsched, IAddH, IRemH, DSnap.
+   - while the lock is held (P = IYield, IEmStop, IEmJoin, IIterChk, ... of the lock owner) and A touches only
+     state that is written under the observer lock (handlers, watches, emitters, efw) or thread-local state
+     (dtodo): IRegEm, IAddHW, IDelWatch, IIterChk, IClearEm, IFailStart, DTurns-with-empty-todo.  Nobody else can
+     change or observe that state before the owner releases.  (In the PINNED variant, fixed = false, start()
+     runs ISched-free but IFailStart / IStartEm's failure path write this state WITHOUT the lock; that variant is
+     kept only as the refuted witness C06_no_deadlock_refuted_pinned.)
+   NOT silent, although it has no blocking point of its own in the code: IMarker, the read of
+   SkipRepeatsQueue._last_item in stop() AFTER the observer lock was released and BEFORE the queue mutex is
+   taken.  A release is a left-mover only: the dispatcher may get the previous marker (which resets _last_item)
+   between the release and the read, and then the marker IS put again.  The same unlocked read on the emitter
+   side is the separate label LESkip / LEPut (after LECheck), so a dispatcher get between the read and the
+   enqueue is a model behaviour (LECheck; DGet; LEPut).
+   No other instruction that follows IRel, IRet or a blocking instruction in some continuation is silent:
+   IRet, IRetX, ICall, IAcq, ISetStop, IMarkerPut, IJoinDisp, DCheck, DGet, DExitI, DTaskDone all are steps of
+   their own (stop flags, emitter/dispatcher alive bits and the queue are only accessed by such steps). *)
 Definition is_silent (s : state) (i : instr) : bool :=
   match i with
   | ISched _ _ | IRegEm _ | IAddHW _ _ | IAddH _ _ | IRemH _ _ | IUnsched _ | IDelWatch _
-  | IIterChk _ | IClearEm | IFailStart _ | DSnap | IMarker => true
+  | IIterChk _ | IClearEm | IFailStart _ | DSnap => true
   | DTurns => match dtodo s with [] => true | _ => false end
   | _ => false
   end.
@@ -435,7 +476,7 @@ Definition step (s : state) (l : label) : option state :=
       match get_em s e with
       | Some m =>
           match epcs m with
-          | EPutPc => Some (say (GPut e (ew m) ev) (set_queue (queue s ++ [QEv ev (ew m)]) (set_epc e ECheckPc s)))
+          | EPutPc => Some (say (GPut e (ew m) ev) (set_qlast (Some (QEv ev (ew m))) (set_queue (queue s ++ [QEv ev (ew m)]) (set_epc e ECheckPc s))))
           | _ => None
           end
       | None => None
@@ -444,7 +485,7 @@ Definition step (s : state) (l : label) : option state :=
       match get_em s e with
       | Some m =>
           match epcs m with
-          | EPutPc => if last_is (queue s) (QEv ev (ew m)) then Some (say (GPutSkip e (ew m) ev) (set_epc e ECheckPc s)) else None
+          | EPutPc => if qlast_is s (QEv ev (ew m)) then Some (say (GPutSkip e (ew m) ev) (set_epc e ECheckPc s)) else None
           | _ => None
           end
       | None => None
